@@ -2094,11 +2094,6 @@ impl<'a> Parser<'a> {
             return self.parse_yield_expression();
         }
 
-        // Check for await expression
-        if self.check(&TokenKind::Await) {
-            return self.parse_await_expression();
-        }
-
         let start = self.current.span;
         let expr = self.parse_conditional_expression()?;
 
@@ -2230,6 +2225,12 @@ impl<'a> Parser<'a> {
 
     fn parse_unary_expression(&mut self) -> Result<Expression, JsError> {
         let start = self.current.span;
+
+        // `await x` is a unary expression: it can be an operand (`1 + await x`)
+        // and binds tighter than binary and conditional operators.
+        if self.check(&TokenKind::Await) {
+            return self.parse_await_expression();
+        }
 
         if let Some(op) = self.current_unary_op() {
             self.advance();
